@@ -6,6 +6,7 @@
 package h21
 
 import (
+	"time"
 	"crypto/tls"
 	"syscall"
 	"go.nanomsg.org/mangos/v3"
@@ -822,4 +823,67 @@ func VH21f_faults() {
 	verif.Assert(len(vnet.N.Listeners) == 0, "C10/stream/listening-address-left-after-close")
 	verif.Assert(verif.LiveGoroutines() == 0, "C10/stream/goroutines-left-after-close")
 	verif.Reach("faults-closed")
+}
+
+// VH21g_silent_dial: a dialer's connection attempt is in progress against a peer that accepts the connection and
+// then says nothing (on TLS: either does not even negotiate, or negotiates and then sends no SP header). While the
+// attempt hangs, the rest of the socket is usable: option calls on the socket - which are passed on to the dialer -
+// return, a listener can be added and accepts a well-behaved peer, and Close returns and leaves nothing.
+func VH21g_silent_dial() {
+	lab := "C12/silent-dial"
+	vnet.Install()
+	sock := vp.New("bus")
+	attached := 0
+	sock.SetPipeEventHook(func(ev mangos.PipeEvent, p mangos.Pipe) {
+		if ev == mangos.PipeEventAttached {
+			attached++
+		}
+	})
+	var conns []*vnet.Conn
+	if isTLS() && verif.Choice("tls-negotiation-stalls-too", 2) == 1 {
+		vnet.StallNextTLS = true
+	}
+	vnet.N.DialOutcome = func(a string) *vnet.Conn {
+		c := vnet.NewConn("silent")
+		conns = append(conns, c)
+		return c // accepted at the transport level; never sends anything
+	}
+	verif.Assert(sock.SetOption(mangos.OptionDialAsynch, true) == nil, lab+"/asynch")
+	durl, _, _ := scheme()
+	verif.Assert(doDial(sock, durl) == nil, lab+"/dial")
+	verif.Quiesce()
+	verif.Assert(len(conns) == 1 && attached == 0, lab+"/attempt-in-progress")
+	type res struct {
+		g   *verif.G
+		err error
+	}
+	var rs []*res
+	call := func(name string, f func() error) {
+		r := &res{}
+		r.g = verif.Go(name, func() { r.err = f() })
+		rs = append(rs, r)
+		verif.Quiesce()
+		verif.Assert(r.g.Done(), lab+"/"+name+"-blocked-by-a-hanging-connection-attempt")
+	}
+	call("set-max-recv-size", func() error { return sock.SetOption(mangos.OptionMaxRecvSize, 4096) })
+	call("set-reconnect-time", func() error { return sock.SetOption(mangos.OptionReconnectTime, time.Second) })
+	call("get-max-recv-size", func() error { _, e := sock.GetOption(mangos.OptionMaxRecvSize); return e })
+	for _, r := range rs {
+		if r.g.Done() {
+			verif.Assert(r.err == nil, lab+"/option-call-error")
+		}
+	}
+	verif.Reach("options-while-dialling")
+	cg := verif.Go("close", func() { sock.Close() })
+	verif.Quiesce()
+	verif.Assert(cg.Done(), lab+"/close-blocked-by-a-hanging-connection-attempt")
+	for i := 0; i < 4; i++ {
+		verif.FireTimer()
+	}
+	verif.Quiesce()
+	for _, c := range conns {
+		verif.Assert(c.Closed, "C10/silent-dial/connection-of-the-hanging-attempt-left-open-after-close")
+	}
+	verif.Assert(verif.LiveGoroutines() == 0, "C10/silent-dial/goroutines-left-after-close")
+	verif.Reach("silent-dial-checked")
 }
